@@ -126,6 +126,12 @@ func allOps() []op {
 		op{Text: "drop_key(pl_msg)", Kind: "drop", K: pm}, op{Text: "add_key(pl_msg, 5)", Kind: "add", K: pm, V: int64(5)},
 		op{Text: "rename(pl_msg, f)", Kind: "rename", K: pm, K2: "f"}, op{Text: "rename(f, pl_msg)", Kind: "rename", K: "f", K2: pm}, op{Text: "rename(pl_msg, t)", Kind: "rename", K: pm, K2: "t"},
 		op{Text: "cast(pl_msg, \"int\")", Kind: "cast", K: pm}, op{Text: "set_measurement(pl_msg, true)", Kind: "setmeas", K: pm})
+	// the key message under its other spelling `_`, in every argument position
+	const msg = "message"
+	out = append(out, op{Text: "rename(_, f)", Kind: "rename", K: msg, K2: "f"}, op{Text: "rename(_, t)", Kind: "rename", K: msg, K2: "t"}, op{Text: "rename(\"_\", f)", Kind: "rename", K: msg, K2: "f"},
+		op{Text: "rename(x, _)", Kind: "rename", K: "x", K2: msg}, op{Text: "rename(t, _)", Kind: "rename", K: "t", K2: msg}, op{Text: "rename(_, x)", Kind: "rename", K: msg, K2: "x"},
+		op{Text: "drop_key(_)", Kind: "drop", K: msg}, op{Text: "add_key(_, 5)", Kind: "add", K: msg, V: int64(5)}, op{Text: "set_tag(_, \"tv\")", Kind: "settagv", K: msg, V: "tv"}, op{Text: "set_tag(_)", Kind: "settag", K: msg},
+		op{Text: "cast(_, \"int\")", Kind: "cast", K: msg}, op{Text: "uppercase(_)", Kind: "strfn", K: msg})
 	return out
 }
 
@@ -152,7 +158,7 @@ func newPoint() *input.Point {
 
 // startVariants: how the host created the point - with tags and fields, without tags (a nil map), without fields,
 // with neither.
-var startVariants = []string{"", "", "no-tags", "no-fields", "bare", "no-tags"}
+var startVariants = []string{"", "", "no-tags", "no-fields", "bare", "no-tags", "empty-tag", "empty-values"}
 
 func newPointVariant(v string) *input.Point {
 	pt := input.GetPoint()
@@ -163,6 +169,10 @@ func newPointVariant(v string) *input.Point {
 		return input.InitPt(pt, "m", map[string]string{"t": "tagval", "u": "second tag"}, nil, impl.FixedTime())
 	case "bare":
 		return input.InitPt(pt, "m", nil, nil, impl.FixedTime())
+	case "empty-tag": // a tag whose value is the empty text
+		return input.InitPt(pt, "m", map[string]string{"t": "", "u": "second tag"}, map[string]any{"f": int64(1), "message": "msg s"}, impl.FixedTime())
+	case "empty-values":
+		return input.InitPt(pt, "m", map[string]string{"t": "", "u": ""}, map[string]any{"f": "", "message": ""}, impl.FixedTime())
 	}
 	input.PutPoint(pt)
 	return newPoint()
@@ -484,6 +494,45 @@ func TestBreadthFirst(t *testing.T) {
 	}
 	evid.Extra("bfs_abstract_states", states)
 	evid.Exhaustive(fmt.Sprintf("operation sequences to depth %d with abstract-state de-duplication", depth), transitions)
+}
+
+// TestEveryStartEveryOperation: every way the host may have created the point (no tags, no fields, empty-valued tags
+// and fields) x every operation, and every ordered pair of index-moving operations: the invariants hold right after
+// InitPt and after each step.
+func TestEveryStartEveryOperation(t *testing.T) {
+	ops := allOps()
+	n := 0
+	for _, start := range []string{"no-tags", "no-fields", "bare", "empty-tag", "empty-values"} {
+		p0 := newPointVariant(start)
+		if msg := invariants(t, p0); msg != "" {
+			rk.Fail(t, "starts", replay{Start: start}, "right after InitPt (%q): %s", start, msg)
+		}
+		for oi, o := range ops {
+			p := newPointVariant(start)
+			if msg := apply(t, p, o); msg != "" {
+				rk.Fail(t, "starts", replay{Ops: []string{o.Text}, Start: start}, "%s\nstart: %q operation: %s", msg, start, o.Text)
+			}
+			evid.Case("start/"+start+"/"+o.Text, true, "start-variant-x-operation")
+			n++
+			if !affects(o) || (oi%evid.NShards()) != evid.Shard() {
+				continue
+			}
+			for _, o2 := range ops {
+				if !affects(o2) {
+					continue
+				}
+				q := newPointVariant(start)
+				path := []string{o.Text, o2.Text}
+				for _, st := range []op{o, o2} {
+					if msg := apply(t, q, st); msg != "" {
+						rk.Fail(t, "starts", replay{Ops: path, Start: start}, "%s\nstart: %q operations: %s", msg, start, strings.Join(path, " ; "))
+					}
+				}
+				n++
+			}
+		}
+	}
+	evid.Exhaustive("point creation variant x operation, and x ordered pairs of index-moving operations", n)
 }
 
 // TestUnobservedSequences: every sequence of up to three operations from a reduced operation set (two keys,
